@@ -290,7 +290,8 @@ def number(ctx, terminator=never):
     raise reports.RecoverableError("Local label, not a number")
 
 
-radix50_chars = Parser.regex("[" + re.escape(radix50.TABLE.replace(" ", "")) + "]+", skip_whitespace_before=False)
+# (?a): only ASCII letters match case-insensitively (otherwise e.g. the Kelvin sign matches K)
+radix50_chars = Parser.regex("(?a)[" + re.escape(radix50.TABLE.replace(" ", "")) + "]+", skip_whitespace_before=False)
 
 @Parser
 def radix50_literal(ctx):
